@@ -66,6 +66,7 @@ R11.4 config templates and mock templates are both created with Funcs(template_f
 	c.Rule("R11.3", 5, "")
 	c.Rule("R11.4", 2, "")
 	c.Rule("R11.5", 1, "")
+	ruleInterfaceFileOrigin(c, "R11.1")
 	r := loadRepo(c, packages.LoadSyntax, "", "./config", "./template")
 	cp := r.Pkg("config")
 	info := cp.TypesInfo
@@ -457,4 +458,65 @@ func ruleFixpoint(c *Ctx, r *Repo, cp *packages.Package, fd *ast.FuncDecl) {
 	// errors inside the pass are returned (R09.1 form, local)
 	n := errorPaths(c, r, "R11.3", cp, fd, errFallbacks)
 	_ = n
+}
+
+// ruleInterfaceFileOrigin (R11.1, round 6): InterfaceFile/InterfaceDir are documented as the file the interface
+// is declared in. They are derived from the file name the parser records with each interface, which must be the
+// name of the Go file itself -- the package's GoFiles entry that belongs to the syntax tree walked, or the name
+// of the token.File -- and not a position's Filename, which //line directives rewrite (goyacc, cgo, protoc
+// plugins): the mock of such an interface would be written next to the grammar file.
+func ruleInterfaceFileOrigin(c *Ctx, rule string) {
+	r := loadRepo(c, packages.LoadSyntax, "", "./internal")
+	ip := r.Pkg("internal")
+	info := ip.TypesInfo
+	pp := FuncDecl(ip, "Parser.ParsePackages")
+	if pp == nil {
+		c.Fail(rule, "ParsePackages|missing", "internal/parse.go", "Parser.ParsePackages not found")
+		return
+	}
+	n := 0
+	for _, g := range familyOf(ip, pp) {
+		fc := newFuncCanonG(ip, g)
+		ast.Inspect(g.Body, func(x ast.Node) bool {
+			call, ok := x.(*ast.CallExpr)
+			if !ok || !strings.HasSuffix(calleeName(info, call), "/config.NewInterface") || len(call.Args) < 3 {
+				return true
+			}
+			n++
+			file, syn := fc.E(call.Args[1]), fc.E(call.Args[2])
+			adjusted := strings.Contains(file, ".Position<") || strings.Contains(file, ".PositionFor<") || strings.Contains(file, ".Filename")
+			fromGoFiles := strings.Contains(file, ".GoFiles") || strings.Contains(file, ".CompiledGoFiles")
+			fromTokenFile := strings.Contains(file, ".File<(go/token.FileSet).File>(") && strings.HasSuffix(file, ".Name<(go/token.File).Name>()")
+			c.Check(!adjusted && (fromGoFiles || fromTokenFile), rule, "NewInterface|file-origin", r.Pos(call.Pos()), "the recorded file is the Go file's own name", fmt.Sprintf("the file name recorded with an interface is %s: InterfaceFile/InterfaceDir must name the Go file the interface is declared in (the package's GoFiles entry or the token.File's name), not a position's file name, which //line directives rewrite", file))
+			// the name and the syntax tree belong to the same file: same index, or the name is derived from the tree
+			same := false
+			switch {
+			case fromTokenFile && strings.Contains(file, syn):
+				same = true
+			case fromGoFiles:
+				// GoFiles[i] with Syntax[i], or rangeval(GoFiles) with Syntax[rangekey(GoFiles)] and the like
+				same = indexPairs(file, syn)
+			}
+			c.Check(same, rule, "NewInterface|file-and-syntax-agree", r.Pos(call.Pos()), "file name and syntax tree belong to the same file", fmt.Sprintf("the file name (%s) and the syntax tree (%s) recorded with an interface are not tied to the same file index", file, syn))
+			return true
+		})
+	}
+	c.Check(n >= 1, rule, "NewInterface|sites", r.Pos(pp.Pos()), "interfaces recorded", "ParsePackages records no interface (anchor unresolved)")
+}
+
+// indexPairs: a = X.GoFiles-derived, b = X.Syntax-derived, and one is the range value while the other is
+// indexed by the same loop's key, or both are indexed by the same expression.
+func indexPairs(a, b string) bool {
+	key := func(s string) (string, bool) { // "...[K]" -> K ; "rangeval(E)" -> "rangekey(E)"
+		if strings.HasPrefix(s, "rangeval(") && strings.HasSuffix(s, ")") {
+			return "rangekey(" + strings.TrimSuffix(strings.TrimPrefix(s, "rangeval("), ")") + ")", true
+		}
+		if i := strings.LastIndex(s, "["); i >= 0 && strings.HasSuffix(s, "]") {
+			return s[i+1 : len(s)-1], true
+		}
+		return "", false
+	}
+	ka, oka := key(a)
+	kb, okb := key(b)
+	return oka && okb && ka == kb && ka != ""
 }
